@@ -34,10 +34,10 @@ theorem e1_parsed : ParsesTo "//a/@x = 1 and (//b/@y > 2 or not(//c)) and //a = 
 
 theorem e1_xexp : XExp .bool e1 :=
   .and _ _ _ _
-    (.and _ _ _ _ (.cmp "=" .eq .set .num _ _ rfl (.path _ pAX_pf) (.num _) rfl)
-      (.group _ _ (.or _ _ _ _ (.cmp ">" .gt .set .num _ _ rfl (.path _ pBY_pf) (.num _) rfl)
+    (.and _ _ _ _ (.cmp "=" .eq .set .num _ _ rfl (.path _ pAX_pf) (.num _))
+      (.group _ _ (.or _ _ _ _ (.cmp ">" .gt .set .num _ _ rfl (.path _ pBY_pf) (.num _))
         (.not .set _ _ (.path _ pC_pf)))))
-    (.cmp "=" .eq .set .str _ _ rfl (.path _ pA_pf) (.str _) rfl)
+    (.cmp "=" .eq .set .str _ _ rfl (.path _ pA_pf) (.str _))
 
 /-- **`C07_main`**: every hypothesis discharged; both sides give `true` -/
 theorem C07_main_instance : ∃ (o : BOut), build (fun _ => true) 100 true false e1 {} {} = .ok o ∧
@@ -127,8 +127,8 @@ def e2 : Ast :=
 theorem e2_parsed : ParsesTo "//a/@x = 1 and not(//b/@y < 2)" e2 := ApiSem.parsesTo_eq (by decide +kernel)
 
 theorem e2_bexp : BExp e2 :=
-  .and _ _ (.cmp _ (.mk "=" .eq _ _ rfl (.path _ pAX_pf) (.num _) rfl))
-    (.not _ _ (.cmp _ (.mk "<" .lt _ _ rfl (.path _ pBY_pf) (.num _) rfl)))
+  .and _ _ (.cmp _ (.mk "=" .eq _ _ rfl (.path _ pAX_pf) (.num _)))
+    (.not _ _ (.cmp _ (.mk "<" .lt _ _ rfl (.path _ pBY_pf) (.num _))))
 
 /-- **`C07_listed_pairs`** -/
 theorem C07_listed_pairs_instance : ∃ (o : BOut), build (fun _ => true) 100 true false e2 {} {} = .ok o ∧
@@ -151,22 +151,72 @@ theorem C07_comparison_value_instance : ∃ (o : BOut),
     exists_ok (by decide +kernel)
   obtain ⟨va, vb, ga, gb, h1, h2, h3, _⟩ := Theorems.C07.C07_comparison_value (F := Int) wf_d0 {} rfl
     hashInj_d0 (.node 0) (by decide) (fun _ => true) 100 false "=" .eq pA (.str "t") rfl (.path _ pA_pf)
-    (.str _) rfl {} o hb
+    (.str _) {} o hb
   have ea := value_of_eval h1 (v' := .nodes [.node 2, .node 6]) (by decide +kernel)
   have eb := value_of_eval h2 (v' := .str "t") (by decide +kernel)
   subst ea eb
   exact ⟨o, h3, by decide +kernel⟩
 
-/-- **`C07_cells`** (`VRel`, `VRel`, `pairOK`): the engine holds the node list in another order than
+/-- **`C07_cells`** (`VRel`, `VRel`): the engine holds the node list in another order than
 the oracle; `{@x='1', @x='2'} >= 2` is true -/
 example : cmpM (F := Int) d0 .ge (.nodes [.attr 4 0, .attr 2 0]) (.num 2) =
     .ok (Spec.compare (F := Int) d0 .ge (.nodes [.attr 2 0, .attr 4 0]) (.num 2)) :=
   Theorems.C07.C07_cells d0 .ge _ _ (.nodes [.attr 2 0, .attr 4 0]) (.num 2)
     (show ∀ x, x ∈ [Ref.attr 4 0, .attr 2 0] ↔ x ∈ [Ref.attr 2 0, .attr 4 0] by
       intro x; simp only [List.mem_cons, List.not_mem_nil, or_false]; exact Or.comm)
-    (show (2 : Int) = 2 from rfl) rfl
+    (show (2 : Int) = 2 from rfl)
 example : Spec.compare (F := Int) d0 .ge (.nodes [.attr 2 0, .attr 4 0]) (.num 2) = true := by
   decide +kernel
+
+/-! ## the cells that joined after the repairs of the Go comparators -/
+
+/-- `//a/@x < //b/@y and '10' > '9' and true() < 2 and '5' < 9`: node-set/node-set, string/string,
+boolean/number and string/number under relational operators.  Every conjunct is true in XPath 1.0
+and each was **false** in the engine before the repairs (`cmpStringStringF` compared byte-wise:
+"1" < "3" holds but "10" > "9" does not — and `cmpBooleanAny` turned `2` into `true`,
+`cmpStringNumeric` computed `9 < 5`) -/
+def e6 : Ast :=
+  .oper "and"
+    (.oper "and"
+      (.oper "and" (.oper "<" pAX pBY) (.oper ">" (.str "10") (.str "9")))
+      (.oper "<" (.call "true" "" .anil) (.num "2")))
+    (.oper "<" (.str "5") (.num "9"))
+
+theorem e6_parsed : ParsesTo "//a/@x < //b/@y and '10' > '9' and true() < 2 and '5' < 9" e6 :=
+  ApiSem.parsesTo_eq (by decide +kernel)
+
+theorem e6_xexp : XExp .bool e6 :=
+  .and _ _ _ _
+    (.and _ _ _ _
+      (.and _ _ _ _ (.cmp "<" .lt .set .set _ _ rfl (.path _ pAX_pf) (.path _ pBY_pf))
+        (.cmp ">" .gt .str .str _ _ rfl (.str _) (.str _)))
+      (.cmp "<" .lt .bool .num _ _ rfl (.true _) (.num _)))
+    (.cmp "<" .lt .str .num _ _ rfl (.str _) (.num _))
+
+/-- **`C07_main`** on the new cells: every hypothesis discharged; both sides give `true` -/
+theorem C07_main_new_cells_instance : ∃ (o : BOut),
+    build (fun _ => true) 100 true false e6 {} {} = .ok o ∧
+    evalP (F := Int) d0 {} o.q (.node 0) = .ok (.bool true) := by
+  obtain ⟨o, hb⟩ : ∃ o, build (fun _ => true) 100 true false e6 {} {} = .ok o :=
+    exists_ok (by decide +kernel)
+  obtain ⟨t, h1, h2⟩ := Theorems.C07.C07_main (F := Int) wf_d0 {} rfl hashInj_d0 (.node 0) (by decide)
+    (fun _ => true) 100 false e6 e6_xexp {} o hb
+  have e : Spec.evalTop (F := Int) d0 e6 (.node 0) = .ok (.bool true) := by decide +kernel
+  rw [e] at h2; cases h2
+  exact ⟨o, hb, h1⟩
+
+/-- **`C07_every_cell`** on the cells that used to differ: string/string `>` ("10" > "9": numbers,
+not bytes), string/number `<` (operands in order), node-set/string `<` (node on the left),
+boolean/number `<` (numbers, not truth values) -/
+example : cmpM (F := Int) d0 .gt (.str "10") (.str "9") = .ok true :=
+  (Theorems.C07.C07_every_cell_emb (F := Int) d0 .gt (.str "10") (.str "9")).trans (by decide +kernel)
+example : cmpM (F := Int) d0 .lt (.str "5") (.num 9) = .ok true :=
+  (Theorems.C07.C07_every_cell_emb (F := Int) d0 .lt (.str "5") (.num 9)).trans (by decide +kernel)
+example : cmpM (F := Int) d0 .lt (.nodes [.attr 2 0]) (.str "2") = .ok true :=
+  (Theorems.C07.C07_every_cell_emb (F := Int) d0 .lt (.nodes [.attr 2 0]) (.str "2")).trans
+    (by decide +kernel)
+example : cmpM (F := Int) d0 .lt (.bool true) (.num 2) = .ok true :=
+  (Theorems.C07.C07_every_cell_emb (F := Int) d0 .lt (.bool true) (.num 2)).trans (by decide +kernel)
 
 /-- `C07_short_circuit` (`hl`): the right operand is the failing plan `.nil` -/
 example : evalP (F := Int) d0 {} (.boolean true (.constStr "x") .nil) (.node 0) = .ok (.bool true) :=
